@@ -426,7 +426,30 @@ def halo_clause(model, rep, funcs):
     if h is not None and zm is not None and zp is not None:
         rep.instance("S17", h.loc())
         MH = Matcher(h)
-        ok1, why = MH.all_of(["$d = tuple(np.ceil(np.array($t[0].shape) / 2).astype($$ty))", "return {'templates': $t}, $d"])
+        # the depth that is returned next to the template bank is ceil(n / 2) per axis of the (rotated) templates: evaluated in the affine domain for even and
+        # odd sizes, so `np.ceil(n / 2)`, `(n + 1) // 2`, `n - n // 2` ... are the same depth
+        ok1, why = False, "depth expression not found"
+        rets_ = [r for r in ast.walk(h.node) if isinstance(r, ast.Return) and isinstance(r.value, ast.Tuple) and len(r.value.elts) == 2]
+        if len(rets_) == 1 and MH.has("return {'templates': $t}, $$d"):
+            bt: dict = {}
+            MH.has("return {'templates': $t}, $$d", bt)
+            tname = bt["t"][1].id if isinstance(bt["t"][1], ast.Name) else None
+            dexpr = MH.expr(rets_[0].value.elts[1], keep=((tname,) if tname else ()))
+            ok1, why = True, ""
+            for parity in ("even", "odd"):
+                dq = ArrayDomain(model, integer_syms={"k"}, positive_syms={"k"})
+                k_ = dq.sym("k")
+                n_ = dq.add(k_, k_) if parity == "even" else dq.add(dq.add(k_, k_), mkA(1))
+                try:
+                    v_ = Interp(model, dq, depth=0).eval(dexpr, {tname or "templates": Tup([Arr((n_, n_, n_))]), "np": ExtRef("numpy")}, h)
+                    comps_ = dq.vec(v_)
+                except Exception:
+                    comps_ = None
+                want_ = k_ if parity == "even" else dq.add(k_, mkA(1))
+                if not comps_ or len(comps_) != 3 or not all(isinstance(c_, A) and c_.equals(want_) for c_ in comps_):
+                    ok1 = False if comps_ else None
+                    why = f"overlap depth for {parity} template sizes evaluates to {comps_!r}, required ceil(n/2) = {want_!r}"[:240]
+                    break
         dom = ArrayDomain(model, nonneg_syms={"min_distance"})
         out = Interp(model, dom, depth=0).run(zm)
         ok2 = None
